@@ -7,3 +7,4 @@ From Verif.Tie.Loops Require Alpm AlpmRange Gem.
 From Verif.Tie.Loops Require PadIdx Pypi Alpine Maven.
 From Verif.Tie.Loops Require Idents Npm Nuget Hex Cargo Golang CargoRange.
 From Verif.Tie.Loops Require Conan ConanRange.
+From Verif.Tie.Loops Require DebianRange HexRange NugetRange GolangRange PypiRange.
